@@ -4,7 +4,7 @@ import numpy as np
 from vlib import ambient, scenario, record
 
 LEVEL = "exploration"
-RULE = ("every evolventDensity m in 2..12 x every dimension N in 2..5 x boxes of every kind x objectives (cones, sines, linear, noise), the density given by constructor keyword, positionally, by attribute assignment, and by re-assigning it on one parameters object reused for several Solvers; each "
+RULE = ("every evolventDensity m in 2..12 x every dimension N in 2..5 x boxes of every kind x objectives (cones, sines, linear, noise), the density given by constructor keyword, positionally, by attribute assignment, as a Python int or a numpy integer scalar, and by re-assigning it on one parameters object reused for several Solvers; each "
         "global-phase trial point must satisfy ((y-lower)/side)*2^m - 1/2 = integer in [0,2^m) within a rounding-derived tolerance <= 4e-6 (cell centres of different "
         "densities never coincide, so membership in the configured grid excludes every other density). Non-trivial: >= 10 trials; "
         "distinct = (N, m, box kind, family, number of distinct cells visited).")
@@ -26,7 +26,8 @@ def cases(tier, seed):
                             "eps": max(2.0 ** (-m), scenario.eps_floor(N, m)) * 1.01, "iters": int(rng.choice([40, 80, 150])) if tier == "quick" else int(rng.choice([60, 150, 300])),
                             "m": m, "refine": False,
                             "pattern": [["solve"]] if rep % 2 == 0 else [["iter", 7], ["solve"]],
-                            "params_how": ["ctor", "assign", "positional", "assign"][(rep + m) % 4]})
+                            "params_how": ["ctor", "assign", "positional", "assign"][(rep + m) % 4],
+                            "m_type": ["int", "np.int64", "int", "np.int32", "int", "np.intp", "np.uint8"][(rep * 3 + m + N) % 7]})
     # one SolverParameters object reused for a sweep over densities: the user changes p.evolventDensity between Solvers
     nsw = 12 if tier == "quick" else 120
     for i in range(nsw):
@@ -107,7 +108,7 @@ def run_case(scn):
         dens = None
     grid_violations(glog, lo, side, m, dens, viol, cells)
     obs = {"runs": 1, "trials": len(glog), "distinct_cells": len(cells), "densities": [m], "dims": [scn["N"]],
-           "params_" + scn.get("params_how", "ctor"): 1}
+           "params_" + scn.get("params_how", "ctor"): 1, "density_type_" + scn.get("m_type", "int"): 1}
     nt = len(glog) >= 10
     return {"violations": viol, "obs": obs, "nontrivial": nt,
             "key": "%d|%d|%s|%s|%d" % (scn["N"], m, scn["box"], scn["obj"]["fam"], len(cells)) if nt else None,
@@ -119,7 +120,8 @@ def finalize(obs, tier, stats):
         return "not every density/dimension was exercised", {}
     if obs.get("trials", 0) < 3000:
         return "too few trials", {}
-    miss = [k for k in ("params_ctor", "params_assign", "params_positional", "sweeps_over_one_parameters_object") if not obs.get(k)]
+    miss = [k for k in ("params_ctor", "params_assign", "params_positional", "sweeps_over_one_parameters_object", "density_type_int",
+                        "density_type_np.int64", "density_type_np.int32", "density_type_np.intp", "density_type_np.uint8") if not obs.get(k)]
     if miss:
         return "ways of configuring the density never exercised: %s" % miss, {}
     return None, {}
